@@ -57,6 +57,7 @@ def run_one(prop, patch, expect_violation):
 
 
 def main():
+    match = os.environ.get('SELFTEST_MATCH', '')     # run only the patches whose path contains one of these (comma separated)
     only = set(sys.argv[1:])
     jobs = []
     for p in sorted(glob.glob(os.path.join(HERE, 'mutants', '*.patch'))):
@@ -70,6 +71,8 @@ def main():
     rows = []
     for prop, patch, expect in jobs:
         if only and prop not in only:
+            continue
+        if match and not any(m in patch for m in match.split(',')):
             continue
         if not os.path.exists(os.path.join(VERIF, 'harness', 'props', prop.lower() + '.py')):
             continue
